@@ -1368,6 +1368,19 @@ func (f *Field) importRoaring(ctx context.Context, data []byte, shard uint64, vi
 		return err
 	}
 
+	// Bits that arrive in an integer field's view (an anti-entropy repair)
+	// may lie above the bit depth this node has needed so far.
+	if !clear && f.Type() == FieldTypeInt && viewName == viewBSIGroupPrefix+f.name {
+		frag.mu.RLock()
+		maxRow := frag.storage.Max() / ShardWidth
+		frag.mu.RUnlock()
+		if maxRow >= bsiOffsetBit {
+			if _, err := f.raiseBSIBitDepth(f.name, uint(maxRow-bsiOffsetBit+1)); err != nil {
+				return errors.Wrap(err, "raising bit depth")
+			}
+		}
+	}
+
 	return nil
 }
 
